@@ -296,11 +296,44 @@ class Ctx:
                 r2 = self._check(neg2, timeout=5000)
                 if r2 == z3.sat:
                     m = self.solver.model()
+                    neg = neg2
                     break
+            # ... and that stays away from the switching points of the if-then-else terms inside the property
+            # (a model sitting exactly on such a point is decided by rounding in the float replay)
+            m = self._away_from_ite_boundaries(neg, m)
             self.obligations.append(Obligation(label, "sat", self.model_assignment(m), note or str(p)[:300], time.time() - t0))
             return False
         self.obligations.append(Obligation(label, "unknown", None, note, time.time() - t0))
         return False
+
+    def _away_from_ite_boundaries(self, neg, m, eps="1/10000", limit=40):
+        try:
+            atoms = []
+            _ite_cond_atoms(neg, set(), atoms)
+            if not atoms:
+                return m
+            self.solver.push()
+            try:
+                self.solver.add(neg)
+                for a in atoms[:limit]:
+                    x, y = a.arg(0), a.arg(1)
+                    if x.sort() == z3.BoolSort():
+                        continue
+                    d = z3.RealVal(eps)
+                    self.solver.push()
+                    self.solver.add(z3.Or(_real(x) - _real(y) >= d, _real(y) - _real(x) >= d))
+                    if self._check(timeout=2000) == z3.sat:
+                        m = self.solver.model()
+                    else:
+                        self.solver.pop()
+                        continue
+                return m
+            finally:
+                # pops every level pushed above, kept or not
+                while self.solver.num_scopes() > 0:
+                    self.solver.pop()
+        except z3.Z3Exception:
+            return m
 
     def check_abstracted(self, extra, timeout_ms):
         """Decide  PC /\\ extra  after replacing every application of the uninterpreted exp by a fresh real variable
@@ -1028,6 +1061,28 @@ def sym_exp(x):
     c.exp_args.append(a)
     c.model = None
     return SymReal(y)
+
+
+_CMP_KINDS = (z3.Z3_OP_LE, z3.Z3_OP_LT, z3.Z3_OP_GE, z3.Z3_OP_GT, z3.Z3_OP_EQ)
+
+
+def _ite_cond_atoms(e, seen, out, in_cond=False):
+    """arithmetic comparison atoms occurring inside the conditions of if-then-else terms of e"""
+    if e.get_id() in seen and not in_cond:
+        return
+    seen.add(e.get_id())
+    if not z3.is_app(e):
+        return
+    k = e.decl().kind()
+    if in_cond and k in _CMP_KINDS and e.num_args() == 2 and e.arg(0).sort() != z3.BoolSort():
+        out.append(e)
+    if k == z3.Z3_OP_ITE and e.arg(1).sort() != z3.BoolSort():
+        _ite_cond_atoms(e.arg(0), seen, out, True)
+        _ite_cond_atoms(e.arg(1), seen, out, in_cond)
+        _ite_cond_atoms(e.arg(2), seen, out, in_cond)
+        return
+    for ch in e.children():
+        _ite_cond_atoms(ch, seen, out, in_cond)
 
 
 def _uf_apps(e, f, seen, out):
